@@ -281,7 +281,7 @@ package diam
 //@ func putReaderBuffer(b)
 //@   property C03 C05 C06
 //@   requires b != nil
-//@   assume buffer_length_setting: MessageBufferLength >= 20 && MessageBufferLength < 1<<30
+//@   assume buffer_length_setting: MessageBufferLength >= 20 && MessageBufferLength < 1<<30 && poolcap(&readerBufferPool) == 20
 //@   modifies bufslice(any)
 //@ end
 //@
@@ -460,4 +460,100 @@ package diam
 //@     invariant [C07] resumes_at_first_unsent: 0 <= n && n <= len(b0) && isslice(b, b0, n) && written(w) == old(written(w)) + n
 //@     invariant [C07 thorough] sent_prefix: forall i int :: 0 <= i && i < n ==> wlog(w)[old(written(w)) + i] == b0[i]
 //@   end
+//@ end
+//@
+//@ func newWriterBuffer(min) (buf)
+//@   property C07
+//@   requires min >= 0 && min < 1<<30
+//@   assume buffer_length_setting: MessageBufferLength >= 20 && MessageBufferLength < 1<<30 && poolcap(&writerBufferPool) == MessageBufferLength
+//@   modifies
+//@   ensures [C07] room: buf != nil && cap(bufslice(buf)) >= min
+//@ end
+//@
+//@ func putWriterBuffer(b)
+//@   property C07
+//@   requires b != nil
+//@   assume buffer_length_setting: MessageBufferLength >= 20 && MessageBufferLength < 1<<30 && poolcap(&writerBufferPool) == MessageBufferLength
+//@   modifies bufslice(any)
+//@ end
+//@
+//@ # what a message must satisfy to be serialised: well-formed AVP list, total below the 24-bit limit
+//@ spec serialisable(m *Message) bool = m != nil && m.Header != nil && wf(m.AVP) && len(m.AVP) < 1<<16 &&
+//@      sumlen(m.AVP, len(m.AVP)) >= 0 && sumlen(m.AVP, len(m.AVP)) < (1<<24) - 20
+//@
+//@ func (*Message).SerializeTo(m, b) (err)
+//@   property C01 C02 C07
+//@   tier thorough
+//@   requires serialisable(m) && len(b) >= 20 + sumlen(m.AVP, len(m.AVP))
+//@   assume destination_is_separate: apart(m.AVP, b)
+//@   hint wf.def(m.AVP)
+//@   hint apart.def(m.AVP, b)
+//@   modifies b[0:20 + sumlen(m.AVP, len(m.AVP))]
+//@   ensures [C02] header: err == nil ==> b[0] == m.Header.Version && be24(b, 1) == m.Header.MessageLength & 0xffffff && b[4] == m.Header.CommandFlags &&
+//@           be24(b, 5) == m.Header.CommandCode & 0xffffff && be32(b, 8) == m.Header.ApplicationID && be32(b, 12) == m.Header.HopByHopID && be32(b, 16) == m.Header.EndToEndID
+//@   ensures ok: err == nil
+//@   loop 0
+//@     modifies b[0:20 + sumlen(m.AVP, len(m.AVP))]
+//@     invariant 0 - 1 <= rangeindex && rangeindex < len(m.AVP)
+//@     invariant [C02] cursor: offset == 20 + sumlen(m.AVP, rangeindex + 1)
+//@     invariant [C02] header_kept: b[0] == m.Header.Version && be24(b, 1) == m.Header.MessageLength & 0xffffff && b[4] == m.Header.CommandFlags &&
+//@           be24(b, 5) == m.Header.CommandCode & 0xffffff && be32(b, 8) == m.Header.ApplicationID && be32(b, 12) == m.Header.HopByHopID && be32(b, 16) == m.Header.EndToEndID
+//@     hint sumlen.unfold(m.AVP, rangeindex + 2)
+//@     hint sumlen.mono(m.AVP, rangeindex + 2, len(m.AVP))
+//@     hint sumlen.mono(m.AVP, rangeindex + 1, len(m.AVP))
+//@     hint sumlen.nonneg(m.AVP, rangeindex + 1)
+//@     hint wf.def(m.AVP[rangeindex + 1].Data.(*GroupedAVP).AVP)
+//@     hint sumlen.nonneg(m.AVP[rangeindex + 1].Data.(*GroupedAVP).AVP, len(m.AVP[rangeindex + 1].Data.(*GroupedAVP).AVP))
+//@   end
+//@ end
+//@
+//@ func writeStreamRetry(w, b, stream, retries) (n, err)
+//@   property C07 C16
+//@   requires w != nil && 0 <= written(w) && written(w) < 1<<44
+//@   modifies written(w), wstream(w), wlog(w)[written(w):written(w)+len(b)]
+//@   ensures [C07] no_gap_no_repeat: 0 <= n && n <= len(b) && written(w) == old(written(w)) + n
+//@   ensures [C07 thorough] exactly_the_unsent_bytes: forall i int :: 0 <= i && i < n ==> wlog(w)[old(written(w)) + i] == b[i]
+//@   ensures [C07] complete_on_success: err == nil ==> n == len(b)
+//@   ensures [C16] every_write_on_the_given_stream: wstream(w) == stream
+//@   loop 0
+//@     modifies written(w), wstream(w), wlog(w)[written(w):written(w)+len(b)]
+//@     invariant [C07] resumes_at_first_unsent: 0 <= n && n <= len(b0) && isslice(b, b0, n) && written(w) == old(written(w)) + n
+//@     invariant [C07 thorough] sent_prefix: forall i int :: 0 <= i && i < n ==> wlog(w)[old(written(w)) + i] == b0[i]
+//@   end
+//@ end
+//@
+//@ func (*Message).WriteToStreamWithRetry(m, writer, stream, retries) (n, err)
+//@   property C07 C16
+//@   requires serialisable(m) && writer != nil && 0 <= written(writer) && written(writer) < 1<<44
+//@   hint wf.def(m.AVP)
+//@   modifies written(writer), wstream(writer), wlog(writer)[written(writer):written(writer)+20+sumlen(m.AVP, len(m.AVP))], bufslice(any), bytes(any)
+//@   ensures [C07] one_write_of_the_whole_message: 0 <= n && n <= 20 + sumlen(m.AVP, len(m.AVP)) && written(writer) == old(written(writer)) + n
+//@   ensures [C07] complete_on_success: err == nil ==> n == 20 + sumlen(m.AVP, len(m.AVP))
+//@   ensures [C16] on_the_given_stream: implements(writer, MultistreamWriter) ==> wstream(writer) == stream
+//@ end
+//@
+//@ func (*Message).WriteToStream(m, writer, stream) (n, err)
+//@   property C07 C16
+//@   requires serialisable(m) && writer != nil && 0 <= written(writer) && written(writer) < 1<<44
+//@   modifies written(writer), wstream(writer), wlog(writer)[written(writer):written(writer)+20+sumlen(m.AVP, len(m.AVP))], bufslice(any), bytes(any)
+//@   ensures [C07] complete_on_success: err == nil ==> n == 20 + sumlen(m.AVP, len(m.AVP)) && written(writer) == old(written(writer)) + n
+//@   ensures [C16] on_the_given_stream: implements(writer, MultistreamWriter) ==> wstream(writer) == stream
+//@ end
+//@
+//@ func (*Message).WriteTo(m, writer) (n, err)
+//@   property C07 C16
+//@   requires serialisable(m) && writer != nil && 0 <= written(writer) && written(writer) < 1<<44
+//@   modifies written(writer), wstream(writer), wlog(writer)[written(writer):written(writer)+20+sumlen(m.AVP, len(m.AVP))], bufslice(any), bytes(any)
+//@   ensures [C07] complete_on_success: err == nil ==> n == int64(20 + sumlen(m.AVP, len(m.AVP))) && written(writer) == old(written(writer)) + 20 + sumlen(m.AVP, len(m.AVP))
+//@   ensures [C16] answer_goes_to_the_request_stream: implements(writer, MultistreamWriter) ==> wstream(writer) == m.stream
+//@ end
+//@
+//@ # response.Write: the buffered writer (Write + Flush as one critical section) is protected by response.mu
+//@ func (*response).Write(w, b) (n, err)
+//@   property C07
+//@   requires w != nil && w.conn != nil && w.conn.server != nil && w.conn.rwc != nil && !locked(&w.mu)
+//@   requires buffered: !implements(w.conn.rwc, MultistreamConn) ==> w.conn.buf != nil && w.conn.buf.Writer != nil
+//@   atcall Write: [C07] lock_held: locked(&w.mu)
+//@   atcall Flush: [C07] lock_held: locked(&w.mu)
+//@   ensures [C07] lock_released: !locked(&w.mu)
 //@ end
